@@ -68,8 +68,10 @@ Definition computeClauses (undef : cref) (P : proof) : option (list cref) :=
 
 (* ---- partitions ------------------------------------------------------------------------------ *)
 (* FlaPartitionMap::top_level_flas : std::map<PTRef, unsigned>, iterated in key order.
-   [parts] is that map as a key-sorted association list. *)
-Definition partmap := list (term * nat).
+   [parts] is that map as a key-sorted association list.  Each term carries the LIST of indices that count for
+   it: the code as it is keeps only the latest index (store_top_level_fla_index overwrites), i.e. a singleton
+   list; the repaired variant (proposed_fixes/C06_partition_reindex.diff) keeps every index the term received. *)
+Definition partmap := list (term * list nat).
 
 Definition orbit (a b : mask) : mask := a ++ b.                          (* orbit(p, p, q): bitwise or *)
 Definition tstbit (m : mask) (i : nat) : bool := existsb (Nat.eqb i) m.
@@ -77,20 +79,23 @@ Definition tstbit (m : mask) (i : nat) : bool := existsb (Nat.eqb i) m.
 Definition or_masks (cmask : cref -> mask) (clauses : list cref) : mask :=
   fold_left (fun acc c => orbit acc (cmask c)) clauses [].
 
-(* PartitionManager::getPartitions(mask): every top-level formula whose index bit is set, in map order *)
+(* PartitionManager::getPartitions(mask): every top-level formula one of whose index bits is set, in map order *)
 Definition getPartitions (parts : partmap) (m : mask) : list term :=
-  map fst (filter (fun e => tstbit m (snd e)) parts).
+  map fst (filter (fun e => existsb (tstbit m) (snd e)) parts).
 
-Definition mapClausesToTerms (cmask : cref -> mask) (parts : partmap) (clauses : list cref) : list term :=
-  getPartitions parts (or_masks cmask clauses).
+(* [orig]: the assertion as it was given to insertFormula for a stored (ite-rewritten) formula; the identity in
+   the code as it is, MainSolver::getOriginalAssertion with proposed_fixes/C06_ite_original_assertion.diff *)
+Definition mapClausesToTerms (cmask : cref -> mask) (parts : partmap) (orig : term -> term) (clauses : list cref) : list term :=
+  map orig (getPartitions parts (or_masks cmask clauses)).
 
-(* store_top_level_fla_index: top_level_flas[fla] = idx  (overwrites the index of a term asserted again) *)
-Fixpoint pm_set (t : term) (i : nat) (parts : partmap) : partmap :=
+(* store_top_level_fla_index.  keep_all = false: top_level_flas[fla] = idx (the code as it is);
+   keep_all = true: the older indices of a term asserted again are kept as well *)
+Fixpoint pm_set (keep_all : bool) (t : term) (i : nat) (parts : partmap) : partmap :=
   match parts with
-  | [] => [(t, i)]
-  | (t', i') :: r => if N.eqb t t' then (t, i) :: r
-                     else if N.ltb t t' then (t, i) :: (t', i') :: r
-                     else (t', i') :: pm_set t i r
+  | [] => [(t, [i])]
+  | (t', is') :: r => if N.eqb t t' then (t, if keep_all then is' ++ [i] else [i]) :: r
+                      else if N.ltb t t' then (t, [i]) :: (t', is') :: r
+                      else (t', is') :: pm_set keep_all t i r
   end.
 
 (* ---- named / hidden split ------------------------------------------------------------------- *)
@@ -107,11 +112,11 @@ Inductive core :=
 | NamedCore (named hidden : list term).
 
 Definition buildCore (full minCore names_empty : bool) (contains : term -> bool) (cmask : cref -> mask)
-  (parts : partmap) (undef : cref) (P : proof) : option core :=
+  (parts : partmap) (orig : term -> term) (undef : cref) (P : proof) : option core :=
   match computeClauses undef P with
   | None => None
   | Some clauses =>
-      let allTerms := mapClausesToTerms cmask parts clauses in
+      let allTerms := mapClausesToTerms cmask parts orig clauses in
       if full then Some (FullCore allTerms)
       else let (named, hidden) := partitionNamedTerms minCore names_empty contains allTerms in
            Some (NamedCore named hidden)
